@@ -17,7 +17,11 @@ theorem C04_consts :
     Gen.Crypto.lengthLength + Gen.Crypto.tagLength + Gen.Crypto.minPayloadLength = MINBLK ∧
     Gen.Crypto.decryptGuard = "ge" ∧
     Gen.Crypto.packNonce = "partial(Struct('<LQ').pack, 0)" ∧
-    Gen.Crypto.packLength = "Struct('H').pack" := by decide
+    Gen.Crypto.packLength = "Struct('H').pack" ∧
+    Gen.Crypto.cipherSalt = "Control-Salt" ∧
+    Gen.Crypto.inCipherInfo = "Control-Write-Encryption-Key" ∧
+    Gen.Crypto.resetInCipher =
+      "ChaCha20Poly1305(hap_hkdf(shared_key, self.CIPHER_SALT, self.IN_CIPHER_INFO))" := by decide
 
 /-- Exactness and chunk independence: for every list of payloads of 1..1024 bytes sealed by a
     correct AEAD under counters 0,1,2,…, followed by any incomplete tail `t`, and EVERY way
